@@ -334,6 +334,14 @@ func (loc *Location) AddRule(ctx *Context, id string, rule Map) (string, error) 
 		return "", err
 	}
 
+	// Canonicalize any 'ttl' or 'expires' first: a rule can give
+	// its expiration in every syntax a fact can.
+	expiring, expires, err := setExpires(ctx, rule)
+	if err != nil {
+		Log(UERR, ctx, "Location.AddRule", "location", loc.Name, "uerr", err, "rule", rule, "ruleId", id)
+		return "", err
+	}
+
 	// Validate the rule
 	if _, err = RuleFromMap(ctx, rule); err != nil {
 		Log(UERR, ctx, "Location.AddRule", "location", loc.Name, "uerr", err, "rule", rule, "ruleId", id)
@@ -341,12 +349,6 @@ func (loc *Location) AddRule(ctx *Context, id string, rule Map) (string, error) 
 	}
 
 	Inc(&loc.stats.AddRules, 1)
-
-	expiring, expires, err := setExpires(ctx, rule)
-	if err != nil {
-		Log(UERR, ctx, "Location.AddRule", "location", loc.Name, "uerr", err, "rule", rule, "ruleId", id)
-		return "", err
-	}
 
 	wrapper := make(map[string]interface{})
 	wrapper["rule"] = map[string]interface{}(rule)
